@@ -93,32 +93,32 @@ PROPS = {
         "assumptions": ["allocation of a declared (<= 256 MB) body buffer succeeds", "memory-level soundness of from_utf8_unchecked-after-validation and of the MaybeUninit body buffer is outside the model (logical preconditions proved)"],
     },
     "C06": {
-        "lean": ["Properties.C06V3"],
-        "level_text": "Machine-checked Lean 4 theorems for ALL byte strings (v3): whenever the strict poll decoder (as a function of the stream; C05 covers every schedule) accepts, the async and blocking decoders return the same packet having consumed exactly the reported total; whenever it rejects a complete frame with an error other than a remaining-length mismatch, they return that same error; blocking = async with EOF mapped to incomplete for packets and bare headers (incl. the invariant that no reader fabricates an I/O error of its own). Proof: parser algebra (every reader extends) + equality of the three dispatch tables. v5: modelled and tied by correspondence (dec/deca/poll/hdr on identical bytes) and by the oracle; theorems in progress.",
+        "lean": ["Properties.C06V3", "Properties.C06V5"],
+        "level_text": "Machine-checked Lean 4 theorems for ALL byte strings and BOTH families: whenever the strict poll decoder (as a function of the stream; C05 covers every schedule) accepts, the async and blocking decoders return the same packet having consumed exactly the reported total; whenever it rejects a complete frame with an error other than a remaining-length mismatch, they return that same error; blocking = async with EOF mapped to incomplete for packets and bare headers (incl. the invariant that no reader fabricates an I/O error of its own). Proof: parser algebra (every reader extends) + equality of the three dispatch tables. The model is tied to the code by correspondence (dec/deca/poll/hdr on identical bytes) and by the oracle.",
         "streams": ["v3dec", "v5dec", "v3short", "v5short"],
         "rule": "dec, deca, poll and hdr ops on identical byte strings: valid encodings, encodings with trailing bytes, 3-4 structure-aware mutations each, all <=2-byte strings, short bodies under every first byte; oracle tallies accepted-by-both / lenient-only / incomplete / rejected",
-        "explanation": "v3: theorem; v5: correspondence + oracle",
+        "explanation": "theorems for both families",
     },
     "C07": {
-        "lean": ["Properties.C07V3"],
-        "level_text": "Machine-checked Lean 4 theorems for ALL valid v3 packets and ALL cut positions: every strict prefix of the encoding is Ok(None) for the blocking decoder and an is_eof() error for the async decoder and for the poll decoder under EVERY delivery schedule, never another error or a packet; the encoding followed by arbitrary bytes decodes to the same packet on all three front-ends (poll: any schedule, any terminal event). From C01 + the prefix lemma of the parser algebra + C05. v5: tied by correspondence (v5fault stream: cuts with EOF) and oracle (every cut); theorems in progress.",
+        "lean": ["Properties.C07V3", "Properties.C07V5"],
+        "level_text": "Machine-checked Lean 4 theorems for ALL valid packets of BOTH families and ALL cut positions: every strict prefix of the encoding is Ok(None) for the blocking decoder and an is_eof() error for the async decoder and for the poll decoder under EVERY delivery schedule, never another error or a packet; the encoding followed by arbitrary bytes decodes to the same packet on all three front-ends (poll: any schedule, any terminal event). From C01 + the prefix lemma of the parser algebra + C05. Tied by the fault streams and by the oracle (every cut of every generated packet).",
         "streams": ["v3fault", "v5fault"],
         "rule": "fault streams: for generated packets and mutations, a random cut with EOF/error terminals on deca/poll/dec; oracle: every cut position of every generated packet (all positions up to 400 bytes), random/adversarial suffixes",
-        "explanation": "v3: theorem; v5: correspondence + oracle",
+        "explanation": "theorems for both families",
     },
     "C08": {
-        "lean": ["Properties.C08V3"],
-        "level_text": "Machine-checked Lean 4 theorem for ALL finite sequences of valid v3 packets: decoding the concatenation one packet at a time (async/blocking advancing by the bytes consumed; poll advancing by the reported total) returns exactly the sequence, each packet consuming exactly its own encoding, byte counts summing to the stream length, then end-of-input at a clean boundary. Induction on the sequence with C01 in its trailing-bytes form. v5: tied by the oracle (sequences of 1..20 mixed packets through one reader with random chunking); theorem in progress.",
+        "lean": ["Properties.C08V3", "Properties.C08V5"],
+        "level_text": "Machine-checked Lean 4 theorem for ALL finite sequences of valid packets (each family): decoding the concatenation one packet at a time (async/blocking advancing by the bytes consumed; poll advancing by the reported total) returns exactly the sequence, each packet consuming exactly its own encoding, byte counts summing to the stream length, then end-of-input at a clean boundary. Induction on the sequence with C01 in its trailing-bytes form. Tied by the oracle (sequences of 1..20 mixed packets through one reader with random chunking) and C05 for delivery schedules.",
         "streams": ["v3dec", "v5dec"],
         "rule": "oracle: 1..20 generated packets back-to-back through blocking (advance by encode_len), async (reader position) and poll (reported total, random chunking); correspondence: encodings followed by another packet's bytes",
-        "explanation": "v3: theorem; v5: oracle",
+        "explanation": "theorems for both families",
     },
     "C14": {
-        "lean": ["Properties.C14V3", "Properties.C14W"],
-        "level_text": "Machine-checked Lean 4 theorems (read side, v3): for ALL valid packets, ALL positions inside the encoding and ALL error kinds, a transport error there makes the async decoder and the poll decoder under EVERY schedule return IoError of that kind, EOF there yields an is_eof() error, a fault after the packet is not seen; error conversions preserve the I/O kind and map every protocol error to InvalidData, ErrorV5 wraps the same. MODELLED, NOT VERIFIED: tokio's read_exact/write_all (documented behaviour recorded as the model of `take`/`writeAll`). Write side (both families, theorems): whatever the sink does the bytes it received are a prefix of the encoding; a write error or zero-length write reached after j < len accepted bytes (any j, any way of accepting them) surfaces as IoError of exactly that kind (WriteZero for a 0-byte write) with exactly the first j bytes delivered; success implies complete delivery; the streaming encoder (one write_all per piece, any piece boundaries) leaves a prefix of the concatenation. v5 read side: modelled and tied by correspondence/oracle; theorems in progress.",
+        "lean": ["Properties.C14V3", "Properties.C14V5", "Properties.C14W"],
+        "level_text": "Machine-checked Lean 4 theorems (read side, both families): for ALL valid packets, ALL positions inside the encoding and ALL error kinds, a transport error there makes the async decoder and the poll decoder under EVERY schedule return IoError of that kind, EOF there yields an is_eof() error, a fault after the packet is not seen; error conversions preserve the I/O kind and map every protocol error to InvalidData, ErrorV5 wraps the same. MODELLED, NOT VERIFIED: tokio's read_exact/write_all (documented behaviour recorded as the model of `take`/`writeAll`). Write side (both families, theorems): whatever the sink does the bytes it received are a prefix of the encoding; a write error or zero-length write reached after j < len accepted bytes (any j, any way of accepting them) surfaces as IoError of exactly that kind (WriteZero for a 0-byte write) with exactly the first j bytes delivered; success implies complete delivery; the streaming encoder (one write_all per piece, any piece boundaries) leaves a prefix of the concatenation.",
         "streams": ["v3fault", "v5fault", "enca"],
         "rule": "fault streams: random cut of generated/mutated encodings with one of 6 error kinds or EOF through deca and poll (random schedules); enca: encode_async into sinks with partial accepts, Pendings and a terminal zero-length write or error; oracle: every cut of every generated packet",
-        "explanation": "read side v3: theorem; write side and v5: correspondence + oracle",
+        "explanation": "theorems for both sides and both families; read_exact/write_all are assumptions",
         "assumptions": ["read_exact: fills the buffer across partial reads, UnexpectedEof on a 0-byte read, propagates errors and Pending (tokio)", "write_all: retries until all bytes are accepted, WriteZero on a 0-byte write, propagates errors and Pending (tokio/std)"],
     },
     "C09": {
@@ -128,5 +128,12 @@ PROPS = {
         "rule": "enca ops: encode_async of generated packets of both families into scripted sinks (accept 1..9 bytes, whole buffer, Pending, terminal zero/err); enc ops print the blocking encoder's bytes and the body encoder's bytes; oracle adds 1-byte sinks, random 1..7 with Pendings, chunking io::Write sink for the body",
         "explanation": "theorems over the IO model; write_all itself is an assumption",
         "assumptions": ["write_all: retries until all bytes are accepted, WriteZero on a 0-byte write, propagates errors and Pending (tokio/std)", "Encodable::encode issues one write_all per field piece (piece boundaries are universally quantified in the theorem)"],
+    },
+    "C13": {
+        "lean": ["Properties.C13"],
+        "level_text": "Machine-checked Lean 4 theorems: the v3 CONNECT reader told the protocol is v5.0 refuses with UnexpectedProtocol(V500) for ALL following bytes (nothing after the level byte is looked at) and the v5 reader refuses v3.1/v3.1.1 likewise; for EVERY valid v5 CONNECT the v3 async, blocking and poll decoders answer UnexpectedProtocol(V500), the answer is unchanged when everything after the level byte is replaced by arbitrary bytes, and continuing on the remaining bytes with the v5 known-protocol entry point yields the original CONNECT (and symmetrically for every valid v3.1/v3.1.1 CONNECT under the v5 decoders); Protocol::new accepts exactly (MQIsdp,3), (MQTT,4), (MQTT,5) and answers InvalidProtocol(name, level) for every other pair with a UTF-8 name, InvalidString otherwise. Tied by the `cross` and `proto` correspondence streams (6 names x 256 levels) and the oracle (reader position at the error).",
+        "streams": ["cross", "proto"],
+        "rule": "cross: every generated CONNECT of one family through dec/deca/poll of the other, the same with random bytes after the level byte, and cwp on the remainder; proto: 6 protocol names (correct, corrupted, empty, non-UTF-8) x all 256 levels",
+        "explanation": "theorems for all CONNECTs; 'rejected as invalid protocol' is pinned as: InvalidProtocol(name, level) when the name is UTF-8, InvalidString when it is not",
     },
 }
